@@ -44,8 +44,10 @@ Value& MAXExpression::value(Context & ctx) const
   Value v(Value::type_numeric);
 
   /* a null number yields null (the typed accessors return a null pointer) */
-  if ((a0.type() == Type::INTEGER || a0.type() == Type::NUMERIC) && a0.type().level() == 0 &&
-      (a1.type() == Type::INTEGER || a1.type() == Type::NUMERIC) && a1.type().level() == 0 &&
+  if (a0.type().level() > 0 || a1.type().level() > 0)
+    throw RuntimeError(EXC_RT_FUNC_ARG_TYPE_S, KEYWORDS[oper]);
+  if ((a0.type() == Type::INTEGER || a0.type() == Type::NUMERIC) &&
+      (a1.type() == Type::INTEGER || a1.type() == Type::NUMERIC) &&
       (a0.isNull() || a1.isNull()))
     v = Value((a0.type() == Type::INTEGER && a1.type() == Type::INTEGER) ? Value::type_integer : Value::type_numeric);
   else
